@@ -26,7 +26,6 @@ instance (dt : NaiveDT) : Decidable (ExtNDTInv dt) := by unfold ExtNDTInv; exact
 /-- offsets a `FixedOffset` can hold -/
 def OffValid (off : Int) : Prop := -86400 < off ∧ off < 86400
 instance (off : Int) : Decidable (OffValid off) := by unfold OffValid; exact inferInstance
-instance (dt : NaiveDT) : Decidable (NDTInv dt) := by unfold NDTInv; exact inferInstance
 
 /-- a well-formed zone-aware value -/
 def ZInv (z : Zoned) : Prop := NDTInv z.utc ∧ OffValid z.off
